@@ -136,6 +136,7 @@ prop(
     level="other",
     design_ref="DESIGN.md section 3, C08",
     groups=[(["./pipeline"], r"^(\(\*Batcher\)\.(Add|heartbeat|trySendBatchAndUnlock|getBatch|commitBatch|work|Stop)|\(\*Batch\)\.(append|updateStatus|reset)|\(\*Event\)\.IsChildParentKind)$")],
+    script_canaries=["replay/C08/stop_add_race.sh"],
     claim=(
         "Batcher mechanisms proved with monitor (lock) invariants on the real code, for all arrival patterns, event sizes, limits and worker counts: "
         "(1) size: under Batcher.mu the batch being filled is strictly below its count and byte limits (monitor invariant, proved at every Unlock); every batch handed to the workers (oracle on the channel send) is ready, non-empty, "
@@ -146,7 +147,7 @@ prop(
     ),
     undecided=[
         "'within the flush timeout plus scheduling slack': real time; only the status rule and the heartbeat's call are proved",
-        "Stop while Add is in flight: Add sends on fullBatches after releasing mu, Stop closes it under mu - whether the send can hit a closed channel is a schedule (by reading it can: see DESIGN.md findings); not decided by contracts",
+        "Stop while Add is in flight: decided for the send itself (it happens under mu with shouldStop false, Stop closes the channel under mu - one fix came out of it, replayed as a schedule); other interleavings of Stop with the workers are not decided",
         "'every added event is committed exactly once' across batches needs the channel/ownership protocol (a batch is owned by one goroutine at a time): assumed, not proved",
     ],
     assumptions=[
